@@ -154,6 +154,26 @@ def compile(p, flags=0):
     return Rx(p)
 
 
+def _native_ok(pattern):
+    """patterns made of separators/whitespace only (no class that could match a residue token) run on
+    the real `re`: tokens are private-use characters that such a pattern cannot match"""
+    import re as real
+    body = real.sub(r"\\[sSnrt]|[\*\+\?\(\)\|]|\[\^?\\?[snrt ]+\]", "", pattern)
+    return not any(c.isalnum() or c in ".\\[" for c in body)
+
+
+def split(pattern, string, maxsplit=0, flags=0):
+    if not _native_ok(pattern):
+        raise Unsupported("re.split(%r) on a tokenised string" % (pattern,))
+    return [items.TStr(x) for x in _re.split(pattern, str.__str__(string), maxsplit, flags)]
+
+
+def sub(pattern, repl, string, count=0, flags=0):
+    if not _native_ok(pattern) or items.has_tokens(repl):
+        raise Unsupported("re.sub(%r) on a tokenised string" % (pattern,))
+    return items.TStr(_re.sub(pattern, repl, str.__str__(string), count, flags))
+
+
 def selftest(patterns, alphabet="KRPDMA", maxlen=5):
     """Compare the stub with the real `re` on every string over `alphabet` up to maxlen."""
     import itertools
